@@ -906,15 +906,19 @@ def c12_siblings(rows, universe, limit, rng):
         pair = by[(typ, kj)]
         # (the announced API version must not matter for the classification: older ones go through mosaik's adapters)
         ver = rng.choice(["3.0", "3.0", "3.0.16", "2.4", "2.2", "2.0", "2"])
-        for first in (False, True, "twin", "named_type"):
+        for first in (False, True, "twin", "named_type", "nonpublic"):
             models = {}
+            if first == "nonpublic":
+                # the description belongs to a NON-PUBLIC model (its entities only exist as children of another model's entities);
+                # starting the simulator classifies or rejects it like any other model
+                models["Par"] = {"public": True, "params": [], "attrs": []}
             if first == "named_type":
                 # a PUBLIC model whose name is also the name of an attribute of mosaik's ModelFactory ("type"), listed first: the
                 # models after it are classified as their descriptions alone are
                 models["type"] = {"public": True, "params": [], "attrs": []}
-            for any_ in ((first, not first) if first not in ("twin", "named_type") else (False,)):
+            for any_ in ((first, not first) if first not in ("twin", "named_type", "nonpublic") else (False,)):
                 r = pair[any_]
-                d = {"public": True, "params": []}
+                d = {"public": first != "nonpublic", "params": []}
                 for k, n in names.items():
                     if r["has"][k]:
                         d[n] = list(r[k])
@@ -933,23 +937,27 @@ def c12_siblings(rows, universe, limit, rng):
                     try:
                         fac = world.start("S")
                         got = {}
-                        for name in models:
+                    except Exception as e:  # noqa: BLE001
+                        got = {name: {"ok": False, "exc": type(e).__name__} for name in models}
+                        fac = None
+                    for name in (models if fac is not None else ()):
+                        try:
                             mm = fac.models[name] if hasattr(fac, "models") and isinstance(getattr(fac, "models"), dict) else getattr(fac, name)
                             sets = (mm.measurement_inputs, mm.event_inputs, mm.measurement_outputs, mm.event_outputs)
                             got[name] = {"ok": True, **{n: [x for x in W if x in st] for n, st in zip(("rnt", "rtr", "rps", "rnp"), sets)}}
-                    except Exception as e:  # noqa: BLE001
-                        got = {name: {"ok": False, "exc": type(e).__name__} for name in models}
+                        except Exception as e:  # noqa: BLE001  (started, but the model has no classification: neither rejected nor classified)
+                            got[name] = {"ok": True, "unclassified": type(e).__name__, "rnt": ["?"], "rtr": ["?"], "rps": ["?"], "rnp": ["?"]}
                 finally:
                     world.shutdown()
             # the simulator as a whole is accepted iff both descriptions are; each model's classes are its own
-            want_ok = all(pair[a]["ok"] for a in (False, True)) if first not in ("twin", "named_type") else pair[False]["ok"]
-            for any_, name in (((False, "Mno"), (True, "Many")) if first not in ("twin", "named_type") else
+            want_ok = all(pair[a]["ok"] for a in (False, True)) if first not in ("twin", "named_type", "nonpublic") else pair[False]["ok"]
+            for any_, name in (((False, "Mno"), (True, "Many")) if first not in ("twin", "named_type", "nonpublic") else
                                ((False, "Mno"), (False, "Mtwin")) if first == "twin" else ((False, "Mno"),)):
                 g, w = got[name], pair[any_]
                 if g["ok"] != want_ok or (g["ok"] and any(g[n] != w[n] for n in ("rnt", "rtr", "rps", "rnp"))):
                     bad.append({"type": typ, "api_version": ver, "lists": json.loads(kj), "any_inputs": any_, "first_model_has_any_inputs": first,
                                 "started": g, "alone": {n: w[n] for n in ("ok", "rnt", "rtr", "rps", "rnp")}})
-    return bad, min(limit, len(keys)) * 4
+    return bad, min(limit, len(keys)) * 5
 
 
 def c12_algebra(universe):
